@@ -103,7 +103,7 @@ def data_lines(spec):
         if d == "COMMA":
             out.append(lhs + ",".join(row))
         elif d == "TAB":
-            out.append("\t".join(row))
+            out.append(getattr(spec, "tab_sep", "\t").join(row))
         else:
             out.append(lhs + sep.join(row))
     return out
